@@ -290,6 +290,49 @@ def main():
                         bad = sorted({int(wb[i][0]) for i in np.flatnonzero(np.abs(Fb - want).max(axis=(1, 2)) > 1e-12 * np.abs(Fa).max())})[:8] if Fa.shape == Fb.shape else None
                         ctx.violation("rotated_space:%s:not_nu_cross_%s" % (kb, ka), "%s: %s differs from nu x %s by %.3e of max |basis| (swapped_normals=%s; first barycentric elements affected: %s)"
                                       % (cid, kb, ka, dev, sw, bad), cid)
+    # ---------------------------------------------------------------- (5) BC / RBC on a segment without truncation are the whole-grid functions
+    # With truncate_at_segment_edge=False the support is extended so that every function of the segment space is the complete
+    # BC / RBC function of its coarse edge: it must coincide (up to its orientation sign) with the function of the same coarse
+    # edge in the whole-grid space, on every barycentric sub-triangle.
+    worst["segment_vs_whole"] = 0.0
+    for mname, mesh, closed in [p for p in pool if p[2] and len(set(p[1].D.tolist())) >= 2 and p[1].ne <= 40][:2]:
+        grid = M.to_grid(mesh)
+        bg, bmesh = bary_mesh_of(M, grid)
+        bc_ = np.array([[1 / 3, 0.2, 0.55], [1 / 3, 0.7, 0.15]])
+        Xb = np.hstack([bmesh.V[:, bmesh.E[0, e]][:, None] + np.column_stack([bmesh.V[:, bmesh.E[1, e]] - bmesh.V[:, bmesh.E[0, e]],
+                                                                              bmesh.V[:, bmesh.E[2, e]] - bmesh.V[:, bmesh.E[0, e]]]) @ bc_ for e in range(bmesh.ne)])
+        wb = locate(bmesh, Xb)
+        doms5 = sorted(set(mesh.D.tolist()))
+        el_edges = np.asarray(grid.element_edges).astype(int)
+
+        def edge_of(rwg_space):
+            return [int(el_edges[loc, el]) for (el, loc) in (rwg_space.global2local[j][0] for j in range(rwg_space.global_dof_count))]
+
+        for seg in ([doms5[0]], doms5[: max(2, len(doms5) // 2)]):
+            o5 = {"segments": [int(x) for x in seg], "truncate_at_segment_edge": False}
+            for kind in ("BC", "RBC"):
+                cid = "segment_vs_whole:%s:%s:seg%s" % (mname, kind, list(seg))
+                if not ctx.want(cid):
+                    continue
+                with ctx.guard(cid, "segment_functions:%s" % kind, allow=S.ALLOWED_REJECTIONS):
+                    exp5 = S.expected_entities(S.Topo(mesh.V, mesh.E), mesh.D, *KA[kind], o5)
+                    if exp5 is None or not exp5[1]:
+                        continue
+                    whole, part = S.make_space(api, grid, *KA[kind]), S.make_space(api, grid, *KA[kind], **o5)
+                    ew, ep = edge_of(api.function_space(grid, "RWG", 0)), edge_of(api.function_space(grid, "RWG", 0, **o5))
+                    if len(ep) != part.global_dof_count or len(ew) != whole.global_dof_count:
+                        raise RuntimeError("coarse RWG space and %s space have different dof counts" % kind)
+                    Fw, Fp = basis_matrix(whole, wb), basis_matrix(part, wb)
+                    col = {e: j for j, e in enumerate(ew)}
+                    dev5 = 0.0
+                    for j, e in enumerate(ep):
+                        a, b = Fp[:, j], Fw[:, col[e]]
+                        dev5 = max(dev5, float(min(np.abs(a - b).max(), np.abs(a + b).max()) / max(np.abs(b).max(), 1e-300)))
+                    worst["segment_vs_whole"] = max(worst["segment_vs_whole"], dev5)
+                    ctx.case(cid, {"mesh": mesh.describe(), "space": kind, "opts": S.opts_key(o5), "functions": len(ep), "max_rel_dev": dev5})
+                    if dev5 > 1e-12:
+                        ctx.violation("segment_functions:%s:differ_from_whole_grid_functions" % kind, "%s: a function of the untruncated segment space differs from the whole-grid %s function of its coarse edge by %.3e"
+                                      % (cid, kind, dev5), cid)
     ctx.note("worst", worst)
     ctx.note("vertex_valences_seen", sorted(valences))
     partial = ctx.only_case is not None or bool(ctx.args.only)
